@@ -535,7 +535,14 @@ func (l *Linter) resolveNestedIncludes(statements []ast.Statement, ctx *context.
 func (l *Linter) factoryRootDeclarations(statements []ast.Statement, ctx *context.Context) []ast.Statement {
 	var factory []ast.Statement
 
+	// The ignore comments of a declaration also cover the errors of this pass (e.g. duplication).
+	// This pass gets its own ignore state, the linting pass will read the comments again.
+	ignoring := l.ignore
+	l.ignore = &ignore{}
+	defer func() { l.ignore = ignoring }()
+
 	for _, stmt := range statements {
+		l.ignore.SetupStatement(stmt.GetMeta())
 		switch t := stmt.(type) {
 		case *ast.AclDeclaration:
 			if err := ctx.AddAcl(t.Name.Value, &types.Acl{Decl: t}); err != nil {
@@ -559,7 +566,6 @@ func (l *Linter) factoryRootDeclarations(statements []ast.Statement, ctx *contex
 			factory = append(factory, stmt)
 		case *ast.ImportStatement:
 			// @ysugimoto skipped. import statement no longer used?
-			continue
 		case *ast.DirectorDeclaration:
 			if err := ctx.AddDirector(t.Name.Value, &types.Director{Decl: t}); err != nil {
 				e := &LintError{
@@ -665,6 +671,7 @@ func (l *Linter) factoryRootDeclarations(statements []ast.Statement, ctx *contex
 		default:
 			l.Error(fmt.Errorf("unexpected statement declaration: %s", t.String()))
 		}
+		l.ignore.TeardownStatement(stmt.GetMeta())
 	}
 	return factory
 }
